@@ -1,6 +1,6 @@
 SPECIFICATION Spec
 CONSTANT Cfg <- MCCfg2322
-CONSTANT Extra = 1
+CONSTANT Extra = 0
 INVARIANT TypeOK
 INVARIANT Protocol
 INVARIANT MaskSound
